@@ -190,7 +190,21 @@ func lifeFamily(id, tier string, p map[string]bool, tweak func(kind string, o *L
 	if tweak != nil {
 		tweak("paid-by-other", &hh)
 	}
-	return []*engine.Scenario{LifeScenario(a), LifeScenario(b), LifeScenario(c), LifeScenario(dd), LifeScenario(e), LifeScenario(f), LifeScenario(g), LifeScenario(hh)}
+	// i: the two-step path — the owner's own account submits the request (order stays pending, nothing assigned), the
+	// gateway picks it up with MsgReady at any later height (midpoint jumps: before and after created+timeout)
+	pi := r1Life(id, tier, p)
+	pi.ID = id + "-life-pending"
+	pi.SidOwner, pi.Pending, pi.Mid, pi.Cancel = true, true, true, true
+	pi.Drain, pi.Migrate, pi.Renew, pi.Claim = false, false, false, false
+	pi.Depth = 6
+	if tier == "thorough" {
+		pi.Depth = 8
+		pi.Renew = true
+	}
+	if tweak != nil {
+		tweak("pending", &pi)
+	}
+	return []*engine.Scenario{LifeScenario(a), LifeScenario(b), LifeScenario(c), LifeScenario(dd), LifeScenario(e), LifeScenario(f), LifeScenario(g), LifeScenario(hh), LifeScenario(pi)}
 }
 
 func init() {
